@@ -1,4 +1,94 @@
-(* placeholder until the proofs are integrated *)
-From LLTD Require Import BufProofs.
-Theorem C07_placeholder : True. Proof. exact I. Qed.
-Print Assumptions C07_placeholder.
+(* C07: every observed probe reported exactly once.
+   Statements only: each theorem restates the full type of a lemma proved in coq/proofs and is closed by
+   `exact`; Print Assumptions beneath.  Regenerate with bin/genprops.py after a lemma changes. *)
+From LLTD Require Import BlockFun PropsQuery.
+
+Theorem C07_record_rule :
+  forall (ctx : N) (c : pcfg) (g : gcfg) (mtu : N) (s : ist) (buf : list N) (h : hdr),
+  parse_hdr buf = Some h ->
+  is_probe h = true ->
+  snd (f_step ctx c g mtu s buf) = [] /\
+  fst (f_step ctx c g mtu s buf) =
+  with_see s
+  (if for_us c h && negb (see_full s) && negb (existsb (obs_key_eqb (obs_of h)) (see s))
+  then obs_of h :: see s
+  else see s).
+Proof. exact C07_record. Qed.
+Print Assumptions C07_record_rule.
+
+Theorem C07_no_duplicate_keys :
+  forall (ctx : N) (c : pcfg) (g : gcfg) (mtu : N) (bufs : list (list N)) (s : ist),
+  nodupb (see s) = true -> nodupb (see (fst (f_run ctx c g mtu s bufs))) = true.
+Proof. exact C07_nodup_run. Qed.
+Print Assumptions C07_no_duplicate_keys.
+
+Theorem C07_query_reports :
+  forall (ctx : N) (c : pcfg) (g : gcfg) (mtu : N) (s : ist) (buf : list N) (h : hdr),
+  parse_hdr buf = Some h ->
+  is_query h = true ->
+  let cap := qcap mtu in
+  snd (f_step ctx c g mtu s buf) =
+  [tx ctx (qresp_frame c h (h_seq h) (firstn cap (see s)) (cap <? length (see s)))] /\
+  see (fst (f_step ctx c g mtu s buf)) = skipn cap (see s).
+Proof. exact C07_query. Qed.
+Print Assumptions C07_query_reports.
+
+Theorem C07_query_on_the_wire :
+  forall (ctx : N) (c : pcfg) (g : gcfg) (mtu : N) (s : ist) (b : list N) (h : hdr),
+  (576 <= mtu <= 9216)%N ->
+  parse_hdr b = Some h ->
+  is_query h = true ->
+  Forall (fun x : N => (x < 256)%N) b ->
+  types_ok (see s) ->
+  exists fr : list N,
+  snd (f_step ctx c g mtu s b) = [tx ctx fr] /\
+  decode_qresp fr = Some (h_seq h, qcap mtu <? length (see s), delivered_step mtu s b).
+Proof. exact C07_query_decoded. Qed.
+Print Assumptions C07_query_on_the_wire.
+
+Theorem C07_reply_destination :
+  forall h : hdr,
+  (h_rsrc h = h_esrc h -> reply_dst h = h_rsrc h) /\ (h_rsrc h <> h_esrc h -> reply_dst h = bcast).
+Proof. exact reply_dst_spec. Qed.
+Print Assumptions C07_reply_destination.
+
+Theorem C07_other_frames_keep :
+  forall (ctx : N) (c : pcfg) (g : gcfg) (mtu : N) (s : ist) (buf : list N) (h : hdr),
+  parse_hdr buf = Some h ->
+  is_probe h = false ->
+  is_query h = false -> is_topo_reset h = false -> see (fst (f_step ctx c g mtu s buf)) = see s.
+Proof. exact C07_others_keep. Qed.
+Print Assumptions C07_other_frames_keep.
+
+Theorem C07_reset_discards :
+  forall (ctx : N) (c : pcfg) (g : gcfg) (mtu : N) (s : ist) (buf : list N) (h : hdr),
+  parse_hdr buf = Some h -> is_topo_reset h = true -> see (fst (f_step ctx c g mtu s buf)) = [].
+Proof. exact C07_reset_discards. Qed.
+Print Assumptions C07_reset_discards.
+
+Theorem C07_conservation :
+  forall (ctx : N) (c : pcfg) (g : gcfg) (mtu : N) (s : ist) (bufs : list (list N)),
+  Forall not_topo_reset bufs ->
+  Permutation.Permutation (delivered_run ctx c g mtu s bufs ++ see (fst (f_run ctx c g mtu s bufs)))
+  (recorded_run ctx c g mtu s bufs ++ see s).
+Proof. exact C07_conservation. Qed.
+Print Assumptions C07_conservation.
+
+Theorem C07_drain :
+  forall (ctx : N) (c : pcfg) (g : gcfg) (mtu : N) (s : ist) (qs : list (list N)),
+  Forall query_frame qs ->
+  length (see s) <= length qs * qcap mtu ->
+  delivered_run ctx c g mtu s qs = see s /\ see (fst (f_run ctx c g mtu s qs)) = [].
+Proof. exact C07_drain. Qed.
+Print Assumptions C07_drain.
+
+Theorem C07_drain_last_clear :
+  forall (ctx : N) (c : pcfg) (g : gcfg) (mtu : N) (s : ist) (qs : list (list N)) (b : list N) (h : hdr),
+  Forall query_frame (qs ++ [b]) ->
+  length (see s) <= length (qs ++ [b]) * qcap mtu ->
+  parse_hdr b = Some h ->
+  let s' := fst (f_run ctx c g mtu s qs) in
+  (qcap mtu <? length (see s')) = false /\
+  snd (f_step ctx c g mtu s' b) = [tx ctx (qresp_frame c h (h_seq h) (see s') false)].
+Proof. exact C07_drain_last. Qed.
+Print Assumptions C07_drain_last_clear.
